@@ -65,7 +65,7 @@ def build(ck):
         # the bridge lemmas were checked against a stale Gen file: they say nothing about the
         # current source, so they do not count as discharged
         nb = len(vf.theorems_in(vf.module_path("UsualProofs.Bridge.C11")))
-        ck.cov["discharged"] = max(0, ck.cov.get("discharged", 0) - nb)
+        ck.cov["discharged"] = min(ck.cov.get("discharged", 0), max(0, ck.cov.get("obligations", 0) - nb))
         ck.cov["bridge_checked_against"] = "stale Gen file (translator refused the current source)"
     if not ok and fresh:
         gok, gout = ck.lake(["Usual.Gen.C11"])
@@ -229,6 +229,8 @@ def run_ranges(ck, hcmd, dcmd, plan, max_report=3):
     ck.cov["range_mismatches"] = ck.cov.get("range_mismatches", 0) + len(bad)
     bad.sort(key=lambda x: (x[2] - x[1]))
     nrep = 0
+    if any(v["kind"] == "obs" for v in ck.violations):
+        max_report = 1          # a concrete failing input is known already: one more is enough
     for kind, lo, hi, a, b in bad[:max_report]:
         i = bisect(ck, hcmd, dcmd, kind, lo, hi)
         n = report_direct(ck, hcmd, dcmd, direct_ops(kind, i), "range %s, index %d" % (rng_op(kind, lo, hi), i),
@@ -409,6 +411,19 @@ def cex_ops(c):
 
 # -------------------------------------------------------------------------------- run
 def run(ck):
+    """scratch copies (VERIF_REPO=/tmp/...; used for mutants and not-yet-committed fixes) must
+    not leave their translation behind in the shared tree: the Gen file is put back afterwards"""
+    keep = None
+    if os.path.realpath(vf.REPO) != "/repo" and os.path.exists(GEN_PATH):
+        keep = open(GEN_PATH, encoding="utf-8").read()
+    try:
+        run1(ck)
+    finally:
+        if keep is not None:
+            vf.write_if_changed(GEN_PATH, keep)
+
+
+def run1(ck):
     hcmd, dcmd = build(ck)
     ck.level = "proof"
     ck.cov["trusted_base"] = [
